@@ -1126,10 +1126,14 @@ fn lower_expr_with_args(
                 );
                 return None;
             }
-            Some(ast::Expr::EString {
-                value: unescape_str(value),
-                astptr,
-            })
+            let Some(value) = unescape_str(value) else {
+                ctx.push_error(
+                    Some(token.text_range()),
+                    "String literal has a \\u escape that denotes no character",
+                );
+                return None;
+            };
+            Some(ast::Expr::EString { value, astptr })
         }
         cst::Expr::MultilineStrExpr(it) => {
             let astptr = MySyntaxNodePtr::new(it.syntax());
@@ -1843,7 +1847,9 @@ fn lower_expr_with_args(
 
 /// Decode the escape sequences the lexer accepts inside a string literal
 /// (`\"` `\\` `\/` `\b` `\f` `\n` `\r` `\t` `\uXXXX`, surrogate pairs included).
-fn unescape_str(raw: &str) -> String {
+/// The characters a string literal denotes; `None` when a `\u` escape denotes none (half of a
+/// surrogate pair, or not four hex digits).
+fn unescape_str(raw: &str) -> Option<String> {
     let mut out = String::with_capacity(raw.len());
     let mut chars = raw.chars().peekable();
     while let Some(c) = chars.next() {
@@ -1884,7 +1890,7 @@ fn unescape_str(raw: &str) -> String {
                     Some(unit) => char::from_u32(unit),
                     None => None,
                 };
-                out.push(decoded.unwrap_or('\u{fffd}'));
+                out.push(decoded?);
             }
             Some(other) => {
                 out.push('\\');
@@ -1893,7 +1899,7 @@ fn unescape_str(raw: &str) -> String {
             None => out.push('\\'),
         }
     }
-    out
+    Some(out)
 }
 
 fn apply_trailing_args(
@@ -2131,10 +2137,14 @@ fn lower_pat(ctx: &mut LowerCtx, node: cst::Pattern) -> Option<ast::Pat> {
                 ctx.push_error(Some(token.text_range()), "StringPat has no value");
                 return None;
             };
-            Some(ast::Pat::PString {
-                value: unescape_str(value),
-                astptr,
-            })
+            let Some(value) = unescape_str(value) else {
+                ctx.push_error(
+                    Some(token.text_range()),
+                    "String pattern has a \\u escape that denotes no character",
+                );
+                return None;
+            };
+            Some(ast::Pat::PString { value, astptr })
         }
         cst::Pattern::ConstrPat(it) => {
             let astptr = MySyntaxNodePtr::new(it.syntax());
